@@ -1,6 +1,6 @@
 (* LangCheck.v — C04: the set of programs observed over ALL decision sequences of the implementation's
    creation, against the bounded language enumerated from the declarations (Spec/Lang.v).  No proofs. *)
-From GE Require Import Base Tape Grammar WellTyped Synth Sat Lang C18Check GrammarCheck SynthCheck.
+From GE Require Import Base Tape Grammar WellTyped Synth Sat Lang C18Check GrammarCheck SynthCheck GrowComplete.
 Open Scope Z_scope.
 
 Inductive lcase :=
@@ -31,6 +31,8 @@ Definition lang_corr (c : lcase) : bool :=
   match c with
   | KLang d k observed tapes =>
       fuel_saturated d k &&
+      (* hypothesis of the completeness theorem (C04_grow_reaches_every_program): every registered class and field type has a distance *)
+      match extract d id_order with Ok g => dist_ok g | Err _ => true end &&
       (Nat.eqb (length observed) (length tapes)) &&
       forallb (fun vt =>
         let '(ph, r, st) := run_model d k (Native (map DI (snd vt))) None in
